@@ -142,15 +142,15 @@ func genVC(sel bool) func(r *sim.RNG, p *sim.Plan, tier string) {
 // ---- oracle ---------------------------------------------------------------------------------------
 
 type oracle38 struct {
-	prop     string // "C38" or "C39": which property this run reports under
-	known    bool
-	phase    minersc.Phase
-	restarts int64
-	entered  int64
-	prevMB   *block.MagicBlock
-	firstMB  int64
-	mbs      int
-	mbRounds []int64 // rounds at which a magic block was created
+	prop        string // "C38" or "C39": which property this run reports under
+	known       bool
+	phase       minersc.Phase
+	restarts    int64
+	entered     int64
+	prevMB      *block.MagicBlock
+	firstMB     int64
+	mbs         int
+	mbRounds    []int64 // rounds at which a magic block was created
 	cycleStarts []int64 // rounds at which Wait -> Start was taken (a new cycle begins)
 }
 
